@@ -20,6 +20,7 @@ Specs: spec/algo/SectionDetect.tla (requirement + transcription of synodic/backe
 from __future__ import annotations
 
 import bisect
+import itertools
 import json
 import math
 import os
@@ -631,7 +632,46 @@ class RealWorkload:
             sflag = sflag or "flattened-times-differ-from-per-trajectory-hits"
         return obs_bracket(sg[:m], 0, 0, bracket_codes(hl, times.tolist()[:m]), sflag)
 
+    def engine_obs(self, case):
+        """_SynodicEngine.solve on THREE trajectories (two periods of the orbit: the same section points recur), with a user-chosen
+        pair of duplicate tolerances, through the serial (n_workers = 1) and the thread-pool path.  The observation is trajectory
+        `which` as answered by the path with case["workers"] workers; it is flagged when the two paths disagree."""
+        from hiten.algorithms.poincare.synodic.backend import _SynodicDetectionBackend
+        from hiten.algorithms.poincare.synodic.config import SynodicMapConfig
+        from hiten.algorithms.poincare.synodic.engine import _SynodicEngine
+        from hiten.algorithms.poincare.synodic.interfaces import _SynodicInterface
+        from hiten.algorithms.poincare.synodic.strategies import _NoOpStrategy
+        from hiten.algorithms.poincare.synodic.types import _SynodicMapProblem
+        _, times, states = self.orbit(case["traj"], case["steps"])
+        n = len(times)
+        # three different arcs (distinct crossings are far apart in the section plane compared with the point tolerance: the
+        # detector also merges CONSECUTIVE hits whose projected points coincide, whatever their times)
+        trajs = [(times, states), (times[n // 3:], states[n // 3:]), (times[: n // 2], states[: n // 2])]
+        ax, off = NAMES.index(case["axis"]), case["offset"]
+        normal = np.zeros(6)
+        normal[ax] = 1.0
+        cfg = SynodicMapConfig(section_axis=case["axis"], section_offset=off, plane_coords=self.plane_coords(ax))
+
+        def solve(nw):
+            eng = _SynodicEngine(backend=_SynodicDetectionBackend(), seed_strategy=_NoOpStrategy(cfg), map_config=cfg, interface=_SynodicInterface())
+            prob = _SynodicMapProblem(plane_coords=self.plane_coords(ax), direction=None, n_workers=nw, normal=normal, offset=off,
+                                      trajectories=trajs, interp_kind="linear", segment_refine=0, tol_on_surface=1e-12,
+                                      dedup_time_tol=case["ttol"], dedup_point_tol=case["ptol"], max_hits_per_traj=None, newton_max_iter=4)
+            res = eng.solve(prob)
+            idx = np.asarray(res.trajectory_indices).tolist() if res.trajectory_indices is not None else []
+            tt = np.asarray(res.times, dtype=float).tolist() if res.times is not None else []
+            return {k: [t for t, i in zip(tt, idx) if i == k] for k in range(3)}
+        serial, pooled = solve(1), solve(case["workers"])
+        k = case["which"]
+        tk, sk = trajs[k]
+        sflag = ""
+        if any(len(serial[j]) != len(pooled[j]) or any(abs(a - b) > 1e-12 for a, b in zip(serial[j], pooled[j])) for j in range(3)):
+            sflag = "serial-and-thread-pool-paths-disagree"
+        return obs_bracket(self.signs(sk, ax, off), 0, 0, bracket_codes([_TimeOnly(t) for t in pooled[k]], tk.tolist()), sflag)
+
     def case_obs(self, case):
+        if case.get("engine"):
+            return self.engine_obs(case)
         if case.get("facade"):
             return self.facade_obs(case)[0]
         if case.get("run"):
@@ -679,6 +719,32 @@ def real_trajectory_observations(ck, dirs):
             case = {"real": True, "run": True, "traj": ti, "steps": steps, "which": which}
             out.append((wl.run_obs(case), case))
             n_calls += 1
+        # the engine: serial vs thread-pool path, with duplicate tolerances in a regime where EACH of them matters: sections
+        # whose successive crossings are closer in the section plane than in time (min point distance < time tol < min time gap)
+        eng_cases = []
+        for axn in NAMES:
+            ax = NAMES.index(axn)
+            col = states[:, ax]
+            for q in (0.5, 0.8):
+                offv = float(np.round(np.quantile(col, q), 3))
+                sc = np.nonzero(np.diff(np.sign(col - offv)) != 0)[0]
+                if len(sc) < 3:
+                    continue
+                gap = float(np.min(np.diff(times[sc])))
+                ii = [NAMES.index(c) for c in wl.plane_coords(ax)]
+                dmin = float(np.min(np.linalg.norm(np.diff(states[sc][:, ii], axis=0), axis=1)))
+                if 1.5 * dmin < gap / 1.5:
+                    eng_cases.append((gap / dmin, axn, offv, math.sqrt(dmin * gap)))
+        eng_cases.sort(reverse=True)
+        for (_, axn, offv, ttol), workers in itertools.product(eng_cases[: (2 if ck.quick else 5)], (2, 3)):
+            for (tt, pp) in ((ttol, 1e-12), (1e-9, 1e-12)):
+                for which in (0, 2):
+                    case = {"real": True, "engine": True, "traj": ti, "steps": steps, "axis": axn, "offset": offv,
+                            "ttol": tt, "ptol": pp, "workers": workers, "which": which}
+                    out.append((wl.engine_obs(case), case))
+                    n_calls += 1
+        if not eng_cases:
+            raise MachineryError("no section of the real trajectory separates the two duplicate tolerances")
     ck.cov["evaluations"] += n_calls
     ck.part("real_trajectories", trajectories=1 if ck.quick else 2, detector_calls=n_calls, observations=len(out))
     ck.count(("real", len(out)), True, n=0)
